@@ -88,8 +88,12 @@ def crash_check(ctx, rc, stderr, what, replay=None):
 
 
 def live_segmentation(ctx):
-    """live part of C04 (filled in below when available)"""
-    return None
+    """live part of C04: a stream of frames full of CR / LF / NUL / TAB / space / escape bytes (also in the phone and serial fields)
+    sent once per cut position in two writes over a real socket; callbacks, replies and frames validated by Trace_Conn"""
+    tr = os.path.join(ctx.scratch, "c04_live.ndjson")
+    rc, err, events = run_live(ctx, ["live-c04", tr])
+    crash_check(ctx, rc, err, "live-c04")
+    trace_conn(ctx, split_conns(events), "c04live")
 
 
 def live_subpackages(ctx):
